@@ -352,6 +352,8 @@ func newInst(sc *scenario, key string) (*inst, string) {
 
 var instMu sync.Mutex
 
+const parRepeat = 15
+
 // scaffold delivers the scenario's unwatched blocks to a fresh instance (and, in the restart context, closes the
 // database WITHOUT flushing the utxo cache and reopens it with the other cache size).
 func scaffold(sc *scenario, key string) (*inst, string) {
@@ -679,6 +681,18 @@ func execPar(tok []string) string {
 				return
 			}
 			defer in.close()
+			if sc.op == "api" {
+				// a pure function of the candidate: asked repeatedly while the other goroutines do the same,
+				// every answer must be the first one
+				outs[i] = sc.apiOn(in)
+				for k := 0; k < parRepeat; k++ {
+					if again := sc.apiOn(in); again != outs[i] {
+						outs[i] = "unstable"
+						break
+					}
+				}
+				return
+			}
 			outs[i], _ = sc.runOn(in)
 		}(i, sc)
 	}
@@ -701,8 +715,21 @@ func Lines(seed uint64, thorough bool) []string {
 
 func generate(R *core.Rand, thorough bool, emit func(class string, nontrivial bool, line string)) {
 	genSolo(R.Fork(), thorough, emit)
-	var parPool []string // bodies of blk cases that may be bundled into concurrent runs
+	var parPool []string    // bodies of blk cases that may be bundled into concurrent runs
+	var stressPool []string // bodies of api cases on many-transaction candidates (deep merkle trees, many scripts)
 	defer func() {
+		// `par` stress: 8 stand-alone-check cases at a time, each repeated while the others run
+		lines := 1
+		if thorough {
+			lines = 3
+		}
+		for k := 0; k < lines && len(stressPool) >= 8; k++ {
+			var bodies []string
+			for j := 0; j < 8; j++ {
+				bodies = append(bodies, stressPool[(k*8+j)%len(stressPool)])
+			}
+			emit("par-api", true, "C01 par "+strings.Join(bodies, " | "))
+		}
 		// `par`: 8 cases per line, each on its own fresh instance, run concurrently
 		n := 6
 		if thorough {
@@ -756,20 +783,26 @@ func generate(R *core.Rand, thorough bool, emit func(class string, nontrivial bo
 						}
 					}
 				} else {
-					// one context, a second different one half of the time
+					// one context, a second different one a third of the time
 					k := R.Intn(len(ctxs))
 					picks = append(picks, recipe{vi, ctxs[k], R.Intn(2), m.name, a})
-					if R.Chance(1, 2) {
+					if R.Chance(1, 3) {
 						k2 := (k + 1 + R.Intn(len(ctxs)-1)) % len(ctxs)
 						picks = append(picks, recipe{vi, ctxs[k2], R.Intn(2), m.name, a})
 					}
 				}
-				if m.name != "combo" {
+				if m.name == "manytx" && !thorough && vi != 0 && vi != 1 && vi != 5 {
+					continue // 250 transactions per candidate: keep the quick tier quick
+				}
+				if m.name != "combo" && (thorough || m.name == "manytx" || R.Chance(1, 2)) {
 					r := recipe{vi, "tip", R.Intn(2), m.name, a}
 					if sc := buildScenario(r); sc != nil {
 						sc.op = "api"
 						scMemo["api:"+r.String()] = sc
 						emit("api/"+m.name, true, sc.line())
+						if m.name == "manytx" {
+							stressPool = append(stressPool, sc.body())
+						}
 					}
 				}
 				for _, r := range picks {
